@@ -346,6 +346,17 @@ def process_fn(src: str, src_file: str, it: rustscan.Item, dirs: List[Directive]
             text = '\n'.join(d.payload)
             edits.append(Edit(st[bi].start, st[bi].start, '\n' + text + '\n', 'loop%d:%s:%d' % (n, info.fn, d.line)))
             info.n_invariants += count_clauses(text, 'invariant')
+    for d in dirs:
+        if d.kind in ('loopbody', 'loopbody?'):
+            n = int(d.arg.split()[0])
+            if n > len(loops):
+                if d.kind == 'loopbody?':
+                    continue
+                raise Undecided('lost anchor: loop %d of %s (has %d loops)' % (n, info.fn, len(loops)))
+            _, bi = loops[n - 1]
+            text = '\n'.join(d.payload)
+            edits.append(Edit(st[bi].end, st[bi].end, '\n' + text + '\n', 'loopbody%d:%s:%d' % (n, info.fn, d.line)))
+            info.n_asserts += len(re.findall(r'\bassert\s*\(', text))
     # --- await invariants
     for d in dirs:
         if d.kind == 'await':
